@@ -196,6 +196,11 @@ const ENUM_COUNTS: [u64; 8] = [1, 2, 3, 127, 128, 255, 256, 300];
 type Fail = (String, String);
 
 fn write_item(buf: &mut Vec<u8>, it: &Item) -> Result<(), String> {
+    write_item_to(buf, it)
+}
+
+/// writes the item into any `std::io::Write` (the blanket impls of asn1rs cover every such sink)
+fn write_item_to<W: std::io::Write>(buf: &mut W, it: &Item) -> Result<(), String> {
     macro_rules! num {
         ($t:ty, $v:expr) => {{
             let mut w = DER::writer(&mut *buf);
@@ -211,12 +216,13 @@ fn write_item(buf: &mut Vec<u8>, it: &Item) -> Result<(), String> {
     match it {
         Item::Length(l) => buf.write_length(*l).map_err(|e| e.to_string()),
         Item::Tag(c, n) => buf.write_identifier(tag_of(*c, *n)).map_err(|e| e.to_string()),
-        Item::Tagged(c, n, k, v) => tagged_dispatch::<&[u8]>(*c, *n, Some(buf), None, *k, *v),
-        Item::Bool(b) => buf.write_boolean(*b).map_err(|e| e.to_string()),
-        Item::BoolOctet(o) => {
-            buf.push(*o);
-            Ok(())
+        Item::Tagged(c, n, k, v) => {
+            let mut tmp: Vec<u8> = Vec::new();
+            tagged_dispatch::<&[u8]>(*c, *n, Some(&mut tmp), None, *k, *v)?;
+            buf.write_all(&tmp).map_err(|e| e.to_string())
         }
+        Item::Bool(b) => buf.write_boolean(*b).map_err(|e| e.to_string()),
+        Item::BoolOctet(o) => buf.write_all(&[*o]).map_err(|e| e.to_string()),
         Item::I64(v) => buf.write_integer_i64(*v).map_err(|e| e.to_string()),
         Item::U64(v) => buf.write_integer_u64(*v).map_err(|e| e.to_string()),
         Item::Num(t, v) => match t {
@@ -391,7 +397,43 @@ pub fn check_items(items: &[Item]) -> Result<(), Fail> {
             }
         }
     }
+    // the same items through writers that accept short writes (as a socket or a pipe does: `write`
+    // may take fewer octets than offered): the octets that arrive must be the ones a Vec receives
+    for chunk in [1usize, 3] {
+        let mut w = ChunkedWriter { out: Vec::with_capacity(buf.len()), chunk };
+        for (k, it) in items.iter().enumerate() {
+            let before = w.out.len();
+            match catch(|| write_item_to(&mut w, it)) {
+                Err(p) => return Err((format!("{}:write-panic", it.name()), format!("item {k}: write into a writer accepting {chunk} octet(s) per call panicked: {p}"))),
+                Ok(Err(e)) => return Err((format!("{}:short-writes", it.name()), format!("item {k} ({:?}): write into a writer accepting {chunk} octet(s) per call failed: {e}", it))),
+                Ok(Ok(())) => {}
+            }
+            let start: usize = sizes[..k].iter().sum();
+            if w.out[before..] != buf[start..start + sizes[k]] {
+                return Err((
+                    format!("{}:short-writes", it.name()),
+                    format!("item {k} ({:?}): a writer accepting {chunk} octet(s) per call received {} but a Vec received {}", it, hex(&w.out[before..]), hex(&buf[start..start + sizes[k]])),
+                ));
+            }
+        }
+    }
     Ok(())
+}
+
+/// a writer that never accepts more than `chunk` octets per call
+struct ChunkedWriter {
+    out: Vec<u8>,
+    chunk: usize,
+}
+impl std::io::Write for ChunkedWriter {
+    fn write(&mut self, data: &[u8]) -> std::io::Result<usize> {
+        let n = data.len().min(self.chunk);
+        self.out.extend_from_slice(&data[..n]);
+        Ok(n)
+    }
+    fn flush(&mut self) -> std::io::Result<()> {
+        Ok(())
+    }
 }
 
 /// a reader that never delivers more than `chunk` octets per call
